@@ -150,8 +150,19 @@ def r19_2(ctx):
     rep.rule("R19.2", "every raise of the validation phase raises ValueError")
     funcs = validation_phase(ctx)
     rep.extra["validation_phase_functions"] = sorted(f.qualname for f in funcs)
+    # the default slots of the SDE wrapper raise when a solver needs a method the user did not supply: C16's "explicit
+    # error", designed to surface at the first step; they are not validation, even where the receiver of an `sde.f(...)`
+    # call in check_contract cannot be resolved to anything narrower than "some object with a slot f"
+    fwd = ctx.model.cls("torchsde/_core/base_sde.py", "ForwardSDE")
+    default_slots = set()
+    for n in own_nodes(fwd.methods["__init__"].node):
+        if isinstance(n, ast.Call) and isinstance(n.func, ast.Name) and n.func.id == "getattr" and len(n.args) == 3 \
+                and isinstance(n.args[2], ast.Attribute):
+            default_slots.add(n.args[2].attr)
     for f in funcs:
         if isinstance(f.node, ast.Lambda):
+            continue
+        if f.cls is fwd and f.name in default_slots:
             continue
         rep.analysed(f)
         for n in own_nodes(f.node):
